@@ -188,6 +188,50 @@ theorem late_writer_leaks :
       [.op .first, .op .next, .write [(1, 5)], .op .first, .op .next]
     = [none, some (1, 4), none, some (1, 5)] := by decide
 
+/-- **a scan never shows a write that completed after it was opened** (model level, scans opened
+    while writes are in flight): the scan takes as its timestamp the number just below the oldest
+    write that has not left the wait list (`readTs`; `visible_seq_no` in the store).  Whatever
+    reaches the captured memtable afterwards — the remaining entries of the writes in flight, later
+    writes — every call shows what the reference cursor over the list of OPEN TIME shows.  The
+    hypothesis on the later entries is what the store guarantees by construction (an entry carries
+    the number of its write; numbers are handed out in increasing order); that `visible_seq_no` IS
+    `readTs` is C06 (`snapshot_stable`, in-order completion through the wait list) and is checked
+    here on every directed schedule (`snap open`: the model computes the timestamp from the numbers
+    in flight as the hooks saw them under the store's mutex). -/
+theorem cursor_never_shows_later_completion {K : Type} [DecidableEq K] {klt : K → K → Bool} (st : StrictTotal klt)
+    (tomb : Ver K → Bool) (sb eb : Bound K) (assigned : Nat) (inflight : List Nat)
+    (hpos : ∀ s ∈ inflight, 0 < s) (mem rest : List (Ver K)) (toks : List (Tok K))
+    (hlate : ∀ es, Tok.write es ∈ toks → ∀ e ∈ es, e.2 ∈ inflight ∨ assigned < e.2) :
+    run klt tomb sb eb (openAt assigned inflight mem rest) toks
+      = Ref.run ⟨view klt tomb sb eb (openAt assigned inflight mem rest), 0⟩ (opsOf toks) :=
+  run_openAt st tomb sb eb assigned inflight hpos mem rest toks hlate
+
+/-- the list of open time holds nothing of a write in flight — not even the entries it had
+    already inserted when the scan was opened (no part of a batch) -/
+theorem snapshot_excludes_writes_in_flight {K : Type} [DecidableEq K] {klt : K → K → Bool}
+    (tomb : Ver K → Bool) (sb eb : Bound K) (assigned : Nat) (inflight : List Nat)
+    (hpos : ∀ s ∈ inflight, 0 < s) (mem rest : List (Ver K))
+    (e : Ver K) (he : e ∈ view klt tomb sb eb (openAt assigned inflight mem rest)) : e.2 ∉ inflight :=
+  view_excludes_inflight tomb sb eb assigned inflight hpos mem rest e he
+
+/-- non-vacuity: batch 8 over keys 1, 2 has inserted key 1 only, write 9 (key 3) has inserted and
+    queues behind it; a scan opened now reads at 7 and shows round 5 of both keys and the old key
+    3, before and after the rest of the batch arrives -/
+example :
+    run Nat.blt (fun _ => false) .unbounded .unbounded
+      (openAt 9 [8, 9] [(1, 8), (3, 9)] [(1, 5), (2, 5), (3, 6)])
+      [.op .first, .op .next, .op .next, .op .next, .write [(2, 8)], .op .first, .op .next, .op .next, .op .next]
+    = [none, some (1, 5), some (2, 5), some (3, 6), none, some (1, 5), some (2, 5), some (3, 6)] := by decide
+
+/-- **the reordering that publishes a write's number before the hand-off** (seeded change
+    `C07-visible-seq-before-handoff`), at model level: the same scan reading at 9 — the number the
+    later write published while batch 8 was still inserting — shows half of batch 8 on its first
+    walk and all of it on its second -/
+theorem timestamp_published_early_shows_part_of_a_batch :
+    run Nat.blt (fun _ => false) .unbounded .unbounded ⟨9, [(1, 8), (3, 9)], [(1, 5), (2, 5), (3, 6)], 0⟩
+      [.op .first, .op .next, .op .next, .op .next, .write [(2, 8)], .op .first, .op .next, .op .next, .op .next]
+    = [none, some (1, 8), some (2, 5), some (3, 9), none, some (1, 8), some (2, 8), some (3, 9)] := by decide
+
 end contents
 
 end Blue.Props.C07
@@ -205,3 +249,6 @@ end Blue.Props.C07
 #print axioms Blue.Props.C07.later_writes_are_screened
 #print axioms Blue.Props.C07.cursor_sees_snapshot_partial
 #print axioms Blue.Props.C07.late_writer_leaks
+#print axioms Blue.Props.C07.cursor_never_shows_later_completion
+#print axioms Blue.Props.C07.snapshot_excludes_writes_in_flight
+#print axioms Blue.Props.C07.timestamp_published_early_shows_part_of_a_batch
